@@ -10,6 +10,7 @@
 -/
 import MosVerif.Lemmas.PipelineRun
 import MosVerif.Lemmas.PipeFrame
+import MosVerif.Lemmas.TranslatedC05
 import MosVerif.Generated.Facts
 namespace MosVerif.C05
 open MosVerif.Pipeline
@@ -297,15 +298,29 @@ example : spec cfg0 [.ret 0 (some (100, 51)), .reply 1 0 51, .query 0 0 0, .assi
 example : spec cfg0 [.ret 0 (some (100, 51)), .reply 0 0 51, .query 0 0 0, .assign 0 0 0] = true := by decide
 end examples
 
-/-- tie (pinned source facts): the end-of-life test, the `uint16` conversion and increment, the map
+/-- tie by translation (Lemmas/TranslatedC05.lean): the model's `Conn` operations are, for all arguments, the
+    operations assembled from the mechanical translation of the current Go source — the `reserved` decrement, the
+    end-of-life test, `qid := uint16(c.nextQid)` and `c.nextQid++` of `addQueueC`; `eol := c.nextQid > 65535 &&
+    len(c.queue) == 0` of `deleteQueueC`; `Status().Available`; `Reserve()`. -/
+theorem conn_ops_are_the_translated_source (c : Conn) (ch qid : Nat) (a : Bool) :
+    c.addQueueC ch =
+      (let c := { c with reserved := Translated.c05_addQ_reserved c.reserved }
+       if Translated.c05_addQ_eol c.nextQid then (c, none)
+       else
+         let qid := Translated.c05_addQ_qid c.nextQid
+         ({ c with nextQid := Translated.c05_addQ_next c.nextQid, queue := qput qid ch c.queue }, some qid)) ∧
+    c.deleteQueueC qid =
+      (let q := qdel qid c.queue
+       { c with queue := q, closed := c.closed || Translated.c05_delQ_eol c.nextQid q.length }) ∧
+    c.status = (c.closed, Translated.c05_status_avail a c.nextQid c.reserved) ∧
+    c.reserve = { c with reserved := Translated.c05_reserve c.nextQid c.reserved } :=
+  ⟨addQueueC_translated c ch, deleteQueueC_translated c qid, status_translated c a, reserve_translated c⟩
+
+/-- tie (pinned source facts; the integer logic is tied by translation, see above): the map
     operations keyed by the wire id, channel capacity 1, the non-blocking send with `default`, the
     deferred delete, the ID restore from the caller's bytes, where `setQid` writes, close-on-read-error. -/
 theorem pins :
-    Facts.pipe_eolCond = "c.nextQid > 65535" ∧
-    Facts.pipe_qidConv = "qid := uint16(c.nextQid)" ∧
-    Facts.pipe_qidInc = "c.nextQid++" ∧
     Facts.pipe_queuePut = "c.queue[uint32(qid)] = respChan" ∧
-    Facts.pipe_reservedDec = "c.reserved--" ∧
     Facts.pipe_chanCap = "respChan := make(chan *dnsmsg.Msg, 1)" ∧
     Facts.pipe_deferDelete = "defer c.deleteQueueC(qid)" ∧
     Facts.pipe_idRestore = "r.Header.ID = binary.BigEndian.Uint16(m)" ∧
@@ -314,12 +329,9 @@ theorem pins :
     Facts.pipe_nbSelect = "select { case resChan <- r: default: dnsmsg.ReleaseMsg(r) }" ∧
     Facts.pipe_getQueueC = "return c.queue[uint32(qid)]" ∧
     Facts.pipe_delete = "delete(c.queue, uint32(qid))" ∧
-    Facts.pipe_eolClose = "eol := c.nextQid > 65535 && len(c.queue) == 0" ∧
     Facts.pipe_setQidTcp = "setQid(b, 2, qid)" ∧
     Facts.pipe_setQidUdp = "setQid(bb, 0, qid)" ∧
-    Facts.pipe_setQidBody = "binary.BigEndian.PutUint16(payload[off:], qid)" ∧
-    Facts.pipe_statusAvail = "s.Available = c.nextQid+c.reserved <= 65535" ∧
-    Facts.pipe_reserveCond = "c.nextQid+c.reserved < 65535" := by decide
+    Facts.pipe_setQidBody = "binary.BigEndian.PutUint16(payload[off:], qid)" := by decide
 
 /-- tie: every read error ends the read loop with the connection closed (`closeWithErr … return`); the only
     `continue`s of the loop are the two of the datagram branch. -/
